@@ -60,7 +60,8 @@ Definition R (c : conn) (m : mon) : Prop :=
   Forall (fun ms => ms_id ms <= m_last_sid m) (m_streams m) /\
   Forall (fun ms => 0 < ms_id ms) (m_streams m) /\
   1 <= cc_max_frame c /\ 0 <= cc_prio_len c /\
-  desc (cc_next_id c) (cc_streams c).
+  desc (cc_next_id c) (cc_streams c) /\
+  (cc_seen_settings c = false -> m_max_streams m = None).
 
 (* ---- list lemmas ---- *)
 Lemma F2_find_none : forall i cs ms sid, Forall2 (SR i) cs ms ->
@@ -143,7 +144,7 @@ Proof.
 Qed.
 
 Ltac dR H :=
-  destruct H as (Rhdr & Rpend & Rmf & Riw & Rms & Rst & Rf0 & Rfw & Rfmax & Riwr & Rl0 & Rlast & Rodd & Rids & Rpos & Rmf1 & Rprio & Rdesc).
+  destruct H as (Rhdr & Rpend & Rmf & Riw & Rms & Rst & Rf0 & Rfw & Rfmax & Riwr & Rl0 & Rlast & Rodd & Rids & Rpos & Rmf1 & Rprio & Rdesc & Rseen).
 
 (* ---- one lemma per event ---- *)
 Definition step_ok (c : conn) (m : mon) (e : cev) : Prop :=
@@ -585,14 +586,14 @@ Proof.
     + apply HRend; [|reflexivity]. intros x Hx. apply SR_end_sent. exact Hx.
 Qed.
 
-Lemma SR_set_flow : forall i s m0 m1 f', SR i s m0 ->
+Lemma SR_set_flow : forall i' i s m0 m1 f', SR i s m0 ->
   ms_id m1 = ms_id m0 -> ms_cli_closed m1 = ms_cli_closed m0 -> ms_cli_reset m1 = ms_cli_reset m0 ->
   ms_peer_ended m1 = ms_peer_ended m0 -> ms_peer_reset m1 = ms_peer_reset m0 ->
-  f' <= 2147483647 -> (cs_forgotten s = false -> i - 2147483647 <= f') ->
+  f' <= 2147483647 -> (cs_forgotten s = false -> i' - 2147483647 <= f') ->
   (ms_closed m1 = false -> f' <= ms_win m1) ->
-  SR i (cs_set_flow s f') m1.
+  SR i' (cs_set_flow s f') m1.
 Proof.
-  intros i s m0 m1 f' (H1 & H2 & H3 & H4 & H5 & H6 & H7 & H8 & H9) E1 E2 E3 E4 E5 F1 F2 F3.
+  intros i' i s m0 m1 f' (H1 & H2 & H3 & H4 & H5 & H6 & H7 & H8 & H9) E1 E2 E3 E4 E5 F1 F2 F3.
   assert (Hc : ms_closed m1 = ms_closed m0) by (unfold ms_closed; rewrite E2, E3, E4, E5; reflexivity).
   unfold SR, cs_done in *. cbn. rewrite E1, E2, E3, E4, E5, Hc in *. repeat split; auto.
 Qed.
@@ -629,4 +630,118 @@ Proof.
     + apply Forall_upd_ms; auto.
     + apply Forall_upd_ms; auto.
     + apply desc_upd; [assumption|]. intros s0. destruct (cs_forgotten s0); reflexivity.
+Qed.
+
+(* ---- SETTINGS ---- *)
+Definition kv_valid (kv : Z * Z) : bool :=
+  if fst kv =? S_INITIAL_WINDOW_SIZE then (0 <=? snd kv) && (snd kv <=? 2147483647)
+  else if fst kv =? S_MAX_FRAME_SIZE then (16384 <=? snd kv) && (snd kv <=? 16777215)
+  else (0 <=? snd kv) && (snd kv <=? 4294967295).
+
+(* R without the clause about the first SETTINGS frame (temporarily false inside the fold) *)
+Definition R0 (c : conn) (m : mon) : Prop :=
+  m_hdr_open m = 0 /\ m_pending m = [] /\
+  m_max_frame m = cc_max_frame c /\ m_init_win m = cc_init_win c /\
+  (forall v, m_max_streams m = Some v -> v = cc_max_streams c) /\
+  Forall2 (SR (cc_init_win c)) (cc_streams c) (m_streams m) /\
+  0 <= cc_flow c /\ cc_flow c <= m_conn_win m /\ cc_flow c <= 2147483647 /\
+  0 <= cc_init_win c <= 2147483647 /\
+  0 <= m_last_sid m /\ m_last_sid m < cc_next_id c /\ Z.odd (cc_next_id c) = true /\
+  Forall (fun ms => ms_id ms <= m_last_sid m) (m_streams m) /\
+  Forall (fun ms => 0 < ms_id ms) (m_streams m) /\
+  1 <= cc_max_frame c /\ 0 <= cc_prio_len c /\
+  desc (cc_next_id c) (cc_streams c).
+
+Lemma R_R0 : forall c m, R c m -> R0 c m.
+Proof. intros c m H. dR H. unfold R0. repeat split; auto; lia. Qed.
+
+Lemma Forall_map_ms : forall (Q : mstream -> Prop) g l, Forall Q l -> (forall s, Q s -> Q (g s)) -> Forall Q (map g l).
+Proof. induction 1; intros; simpl; constructor; auto. Qed.
+
+Lemma setting_ok : forall c m kv, R0 c m -> kv_valid kv = true ->
+  R0 (client_setting c kv) (apply_setting m kv) /\
+  cc_seen_settings (client_setting c kv) = cc_seen_settings c /\
+  (fst kv <> S_MAX_CONCURRENT_STREAMS -> m_max_streams (apply_setting m kv) = m_max_streams m) /\
+  (fst kv = S_MAX_CONCURRENT_STREAMS -> cc_max_streams (client_setting c kv) = snd kv).
+Proof.
+  intros c m [id v] H Hv. unfold kv_valid in Hv. cbn [fst snd] in *.
+  destruct H as (Rhdr & Rpend & Rmf & Riw & Rms & Rst & Rf0 & Rfw & Rfmax & Riwr & Rl0 & Rlast & Rodd & Rids & Rpos & Rmf1 & Rprio & Rdesc).
+  unfold client_setting, apply_setting, S_MAX_FRAME_SIZE, S_MAX_CONCURRENT_STREAMS, S_INITIAL_WINDOW_SIZE in *.
+  destruct (id =? 5) eqn:E5.
+  { replace (id =? 4) with false in Hv by lia.
+    split; [|cbn; repeat split; auto; intros; lia].
+    unfold R0. cbn. repeat split; auto; lia. }
+  destruct (id =? 3) eqn:E3.
+  { split; [|cbn; repeat split; auto; intros; lia].
+    unfold R0. cbn. repeat split; auto; try lia. intros v0 Hv0. inversion Hv0. reflexivity. }
+  destruct (id =? 4) eqn:E4; [|split; [unfold R0; repeat split; auto|repeat split; auto; intros; lia]].
+  split; [|cbn; repeat split; auto; intros; lia].
+  assert (Hd : wrap32 (wrap32 v - wrap32 (cc_init_win c)) = v - cc_init_win c).
+  { rewrite (wrap32_id v) by (unfold in32; lia). rewrite (wrap32_id (cc_init_win c)) by (unfold in32; lia).
+    apply wrap32_id. unfold in32. lia. }
+  rewrite Hd. rewrite Riw.
+  set (d := v - cc_init_win c).
+  unfold R0. cbn. repeat split; auto; try lia.
+  - eapply F2_map2; [exact Rst|]. intros c0 m0 HS.
+    pose proof HS as (H1 & H2 & H3 & H4 & H5 & H6 & H7 & H8 & H9).
+    destruct (cs_forgotten c0) eqn:Ef.
+    + rewrite (H6 eq_refl). unfold SR in *. rewrite Ef. repeat split; auto. intros; discriminate.
+    + pose proof (SR_in32 _ _ _ (proj1 Riwr) HS Ef) as Hin. specialize (H9 eq_refl).
+      rewrite out_add_stream_eq by (unfold in32 in *; unfold d; lia). cbn [snd].
+      assert (Hfl : let f' := if in32b (cs_flow c0 + d) then cs_flow c0 + d else cs_flow c0 in
+                    f' <= 2147483647 /\ v - 2147483647 <= f' /\ (cs_flow c0 <= ms_win m0 -> f' <= ms_win m0 + d)).
+      { cbv zeta. destruct (in32b (cs_flow c0 + d)) eqn:Eb.
+        - apply in32b_true in Eb. unfold in32 in Eb. unfold d in *. lia.
+        - apply in32b_false in Eb. unfold in32 in *. unfold d in *. lia. }
+      cbv zeta in Hfl. destruct Hfl as (F1 & F2 & F3).
+      destruct (ms_closed m0) eqn:Ec.
+      * eapply SR_set_flow; [exact HS| | | | | | | |]; auto. rewrite Ec. intros; discriminate.
+      * eapply SR_set_flow; [exact HS| | | | | | | |]; cbn; auto.
+  - apply Forall_map_ms; auto. intros s0 Hs0. destruct (ms_closed s0); cbn; exact Hs0.
+  - apply Forall_map_ms; auto. intros s0 Hs0. destruct (ms_closed s0); cbn; exact Hs0.
+  - apply desc_map; [assumption|]. intros s0. destruct (cs_forgotten s0); reflexivity.
+Qed.
+
+Lemma settings_fold_ok : forall kvs c m, R0 c m -> forallb kv_valid kvs = true ->
+  R0 (fold_left client_setting kvs c) (fold_left apply_setting kvs m) /\
+  cc_seen_settings (fold_left client_setting kvs c) = cc_seen_settings c /\
+  (has_setting S_MAX_CONCURRENT_STREAMS kvs = false ->
+     m_max_streams (fold_left apply_setting kvs m) = m_max_streams m).
+Proof.
+  induction kvs as [|kv r IH]; intros c m H Hv; cbn [fold_left].
+  - repeat split; auto.
+  - cbn [forallb] in Hv. apply andb_true_iff in Hv as [Hv1 Hv2].
+    destruct (setting_ok c m kv H Hv1) as (A & B & C0 & D).
+    destruct (IH _ _ A Hv2) as (A' & B' & C').
+    repeat split; auto; [congruence|].
+    unfold has_setting in *. cbn [existsb]. intros Hn. apply orb_false_iff in Hn as [Hn1 Hn2].
+    rewrite C' by exact Hn2. apply C0. lia.
+Qed.
+
+Lemma settings_valid_kv : forall kvs, settings_valid kvs = true -> forallb kv_valid kvs = true.
+Proof. intros. exact H. Qed.
+
+Lemma step_settings : forall c m kvs, R c m -> step_ok c m (ESettings kvs).
+Proof.
+  intros c m kvs HR. unfold step_ok. cbn [conn_step].
+  destruct (settings_valid kvs) eqn:Ev; [|apply noop_ok; exact HR].
+  pose proof HR as HR0. dR HR.
+  cbn [fst snd mon_steps monitor_step ok mon_peer]. unfold mon_client. cbn.
+  rewrite Rhdr, Rpend. cbn.
+  set (m1 := mkMon (m_max_frame m) (m_init_win m) (m_max_streams m) [] (m_conn_win m) (m_streams m)
+                   (m_last_sid m) 0 (m_sent m + 1) (m_acked m + 1) (m_pings m) (m_c_conn_win m) (m_c_init_win m)).
+  assert (H1 : R0 c m1).
+  { unfold R0, m1. cbn. repeat split; auto; lia. }
+  destruct (settings_fold_ok kvs c m1 H1 (settings_valid_kv _ Ev)) as (A & B & C0).
+  rewrite Rhdr. fold m1. unfold apply_settings.
+  eexists. split; [reflexivity|].
+  destruct A as (A1 & A2 & A3 & A4 & A5 & A6 & A7 & A8 & A9 & A10 & A11 & A12 & A13 & A14 & A15 & A16 & A17 & A18).
+  unfold R. cbn. repeat split; auto; try lia; try (intros; discriminate).
+  intros v Hv.
+  destruct (negb (cc_seen_settings c) && negb (has_setting S_MAX_CONCURRENT_STREAMS kvs)) eqn:G.
+  - apply andb_true_iff in G as [G1 G2].
+    rewrite C0 in Hv by (destruct (has_setting S_MAX_CONCURRENT_STREAMS kvs); [discriminate|reflexivity]).
+    unfold m1 in Hv. cbn in Hv. rewrite Rseen in Hv by (destruct (cc_seen_settings c); [discriminate|reflexivity]).
+    discriminate.
+  - apply A5. exact Hv.
 Qed.
